@@ -395,6 +395,26 @@ def remove_bitstring(string, expect_unused=_sentry):
 #  iso(1) identified-organization(3) certicom(132) curve(0) 34 }
 
 
+def _int_repr(value):
+    """
+    Format an integer taken from untrusted DER for use in an error message.
+
+    Decimal conversion of very large integers raises ValueError (the
+    interpreter limits it to a few thousand digits), hexadecimal never does.
+    """
+    if -(1 << 64) < value < (1 << 64):
+        return "%d" % value
+    return hex(value)
+
+
+def _oid_repr(oid):
+    """Format a decoded OID (tuple of integers) for use in an error message."""
+    try:
+        return "(" + ", ".join(_int_repr(arc) for arc in oid) + ")"
+    except TypeError:
+        return repr(oid)
+
+
 def unpem(pem):
     if isinstance(pem, text_type):  # pragma: no branch
         pem = pem.encode()
